@@ -292,6 +292,25 @@ def run(R):
                         okr = False
                         R.viol("C20.clap", "arity:%s" % f, "%s is written %s a value but antnode registers it as %s" % (f, "with" if x["takes_value"] else "without", reg["action"]), body, x["line"])
         R.inst("C20.clap", "K7 table agreement", "every emitted flag is a registered long option of antnode with matching arity", n, okr, {"top_level": sorted(top), "evm_custom": sorted(sub)})
+        # (3a) a hand-written value parser on an option the manager writes must not be able to refuse: the writer does not validate,
+        # so any string the reader rejects makes the node refuse its own service definition.  (LogFormat's parser is the inverse of
+        # the writer's as_str: C20.logformat.)
+        INVERSE_CHECKED = ("ant_logging::LogFormat::parse_from_str",)
+        npar, okpar = 0, True
+        for nm, m, body in (("install", mi, bi), ("upgrade", mu, bu), ("peers", mp, bp)):
+            for f, xs in m["flags"].items():
+                reg = (sub if f in SUBCMD_FLAGS else top).get(f[2:])
+                if not reg or not reg.get("parser") or reg["parser"] in INVERSE_CHECKED:
+                    continue
+                for pb in F.by_npath.get(A.norm(reg["parser"]) if hasattr(A, "norm") else reg["parser"], []) or ([F.body(reg["parser"])] if F.body(reg["parser"]) else []):
+                    npar += 1
+                    prep(pb)
+                    errs = RetSink("Err", computed=True).blocks(pb) + [b["id"] for b in pb.blocks if b["term"]["k"] == "call" and not b["cleanup"] and "from_residual" in (b["term"].get("ngen") or b["term"].get("ncallee") or "")]
+                    if errs:
+                        okpar = False
+                        R.viol("C20.parser", "reader-can-refuse:%s" % f, "antnode parses %s with %s, which can fail, but the manager writes the value unvalidated: some service definitions it writes are refused by the node" % (f, reg["parser"]), pb, pb.lines[0])
+                    break
+        R.inst("C20.parser", "K7 table agreement", "hand-written value parsers of options the manager writes cannot refuse a value", npar, okpar)
         # (3b) relations between options (conflicts_with …): a pair the reader refuses must never be written together
         id2long = {v["id"]: k for k, v in top.items()}
         emitted = {}
@@ -384,6 +403,10 @@ def run(R):
 
     network_id_first(R)
     cache_dir_honoured(R)
+    evm_subcommand_first(R)
+    testnet_honoured(R)
+    archived_logs_honoured(R)
+    env_recorded_before_install(R)
 
     # (4) value vocabulary
     asb = R.body("C20.logformat", "ant_logging::LogFormat::as_str")
@@ -660,3 +683,103 @@ def cache_dir_honoured(R):
             ok = False
             R.viol("C20.cachedir", "arg-not-applied", "a given --bootstrap-cache-dir does not replace config.cache_file_path before the store is built", b, b.lines[0])
     R.inst("C20.cachedir", "K5 must-pass", "new_from_peers_args: every path to BootstrapCacheStore::new consults --bootstrap-cache-dir and, when given, stores it in config.cache_file_path", 2, ok)
+
+
+def evm_subcommand_first(R):
+    """The network antctl writes as the `evm-*` subcommand decides; the environment is consulted only when no subcommand was given."""
+    from rules import FieldOptGuard, closures_passed
+    F = R.F
+    main = R.body("C20.evm.precedence", "antnode::main")
+    if main is None:
+        return
+    prep(main)
+    g = cfg_of(main)
+    ENV = "ant_evm::get_evm_network_from_env"
+    ENVS = [ENV, "evmlib::utils::get_evm_network_from_env", "*::get_evm_network_from_env"]
+    sub = Taint(main, through="all").closure({d for d, r, p in field_reads(main, "evm_network")})
+    direct = [b["id"] for b in main.blocks if b["term"]["k"] == "call" and not b["cleanup"] and callee_matches(b["term"], ENVS)]
+    # handed over as the default of `unwrap_or_else` / `or_else` / `map_or_else` on the subcommand option
+    as_default = []
+    for b in main.blocks:
+        t = b["term"]
+        if t["k"] != "call" or b["cleanup"]:
+            continue
+        nm = t.get("ngen") or t.get("ncallee") or ""
+        if nm.endswith(("Option::unwrap_or_else", "Option::or_else", "Option::map_or_else", "Option::ok_or_else")) and op_local(t["args"][0]) in sub:
+            cands = [a for a in t["args"][1:] if a and a[0] == "f" and a[1].endswith("get_evm_network_from_env")]
+            cands += [cl for cl in closures_passed(F, main, t) if any(callee_matches(x["term"], ENVS) for x in (prep(cl) or cl.blocks) if x["term"]["k"] == "call")]
+            if cands:
+                as_default.append(b["id"])
+    ok = bool(direct or as_default)
+    if not ok:
+        R.viol("C20.evm.precedence", "anchor-missing:get_evm_network_from_env", "antnode::main no longer falls back to the environment for the EVM network", main, main.lines[0])
+    elif direct:
+        n, acc, rej = FieldOptGuard("evm_network", ("None",), "no evm subcommand given").edges(main)
+        if not acc or (set(direct) & g.reach((0,), cut=acc)):
+            ok = False
+            R.viol("C20.evm.precedence", "env-before-subcommand", "antnode::main consults the environment for the EVM network although an `evm-*` subcommand may have been given: the network antctl wrote can be overridden by the service environment", main, g.term(direct[0])["l"])
+    R.inst("C20.evm.precedence", "K4 gate", "the EVM network from the environment is used only when no evm-* subcommand was given", len(direct) + len(as_default), ok)
+
+
+def testnet_honoured(R):
+    """`--testnet` (PeersArgs.disable_mainnet_contacts, which the manager writes) means the mainnet contacts are never fetched."""
+    from rules import FieldBoolGuard
+    b = R.body("C20.testnet", "ant_bootstrap::initial_peers::PeersArgs::get_bootstrap_addr::{closure#0}")
+    if b is None:
+        return
+    prep(b)
+    sink = CallSink("ant_bootstrap::contacts::ContactsFetcher::with_mainnet_endpoints", "*ContactsFetcher::with_mainnet_endpoints")
+    R.gate("C20.testnet", b, sink, [[FieldBoolGuard("disable_mainnet_contacts", want=False, label="disable_mainnet_contacts is false")]],
+           descr="the mainnet contacts are fetched only when --testnet was not given")
+
+
+def archived_logs_honoured(R):
+    """`--max-archived-log-files N` (written by the manager) decides the total kept: with it given, the total handed to the file rotater is
+    N + the uncompressed count, not raised to a built-in minimum."""
+    from rules import PL
+    F = R.F
+    fl = R.body("C20.logs.archived", "ant_logging::layers::TracingLayers::fmt_layer")
+    if fl is None:
+        return
+    prep(fl)
+    g = cfg_of(fl)
+    rot = [b for b in fl.blocks if b["term"]["k"] == "call" and not b["cleanup"] and (b["term"].get("ncallee") or "").endswith("appender::file_rotater")]
+    ok = bool(rot)
+    if not rot:
+        R.viol("C20.logs.archived", "anchor-missing:file_rotater", "fmt_layer no longer hands the file limits to appender::file_rotater", fl, fl.lines[0])
+    else:
+        tot = backward(fl, op_local(rot[0]["term"]["args"][3]))
+        clamps = [b["id"] for b in fl.blocks if b["term"]["k"] == "call" and not b["cleanup"]
+                  and (b["term"].get("ngen") or b["term"].get("ncallee") or "").endswith(("cmp::max", "cmp::min", "Ord::max", "Ord::min", "Ord::clamp"))
+                  and len(b["term"].get("d") or []) == 1 and b["term"]["d"][0] in tot]
+        tr = Tracker(fl)
+        for l in Taint(fl).closure(PL(fl, 5)):     # (self, targets, dest, format, max_uncompressed, max_compressed, print)
+            tr.seed_call_result(l, ("Some",), False)
+        tr.run()
+        if clamps:
+            # a clamp on the total is fine only on the side where no explicit archived count was given
+            if not tr.accept or (set(clamps) & g.reach((0,), cut=tr.reject)):
+                ok = False
+                R.viol("C20.logs.archived", "archived-count-clamped", "the total number of log files is raised to a built-in bound even when --max-archived-log-files was given: the option is accepted but ignored", fl, g.term(clamps[0])["l"])
+        cmp_src = Taint(fl, through="all").closure(PL(fl, 5))
+        if op_local(rot[0]["term"]["args"][3]) not in cmp_src:
+            ok = False
+            R.viol("C20.logs.archived", "archived-count-unused", "the archived-files count does not reach appender::file_rotater", fl, rot[0]["term"]["l"])
+    R.inst("C20.logs.archived", "K6 flows-to", "max_archived_log_files reaches the rotater's total unclamped", len(rot), ok)
+
+
+def env_recorded_before_install(R):
+    """The environment given to `add` is recorded in the registry before any service is installed with it: an add that fails part-way
+    must not leave services whose recorded (upgrade-time) environment differs from the one they were installed with."""
+    add = R.body("C20.env.order", ADD)
+    if add is None:
+        return
+    prep(add)
+    g = cfg_of(add)
+    writes = [blk["id"] for blk in add.blocks if not blk["cleanup"] for st in blk["stmts"]
+              if (st["rv"]["k"] == "ref" and st["rv"].get("mut") and ".environment_variables" in st["rv"]["p"][1:]) or (len(st["d"]) > 1 and ".environment_variables" in st["d"][1:])]
+    inst = [b["id"] for b in add.blocks if b["term"]["k"] == "call" and not b["cleanup"] and (b["term"].get("ncallee") or "").endswith("ServiceControl::install")]
+    ok = bool(writes) and bool(inst) and not (set(writes) & g.reach(tuple(inst)))
+    if not ok:
+        R.viol("C20.env.order", "env-after-install", "add_node records the new environment in the registry after services were already installed with it (or not at all)", add, add.lines[0])
+    R.inst("C20.env.order", "K5 must-precede", "registry.environment_variables is written before the first install", len(writes), ok)
